@@ -70,7 +70,8 @@ PERMUTED = ["long unsigned", "int long", "long unsigned int", "int unsigned", "l
             "unsigned int long", "short unsigned", "long int long", "int long long"]
 NAMED = ["Class1", "Color", "TypeID", "Struct1", "ns1::Inner", "std::string", "std::vector<int>", "std::vector<double>",
          "string", "std::vector<long>", "ns1::NsEnum"]
-PTRS = ["", "*", "&", "**", "*&", "* const", "* const *", "** const", "* const &", "* volatile", "***", "* const * const"]
+PTRS = ["", "*", "&", "**", "*&", "* const", "* const *", "** const", "* const &", "* volatile", "***", "* const * const",
+        "* const volatile", "* const volatile *", "* volatile * const", "* const volatile &"]
 CVS = ["", "const ", "volatile ", "const volatile ", "volatile const "]
 POSTCV = ["", " const", " volatile"]
 ARRS = ["", "[20]", "[N]", "[3][4]", "[N][2]", "[64/(4*2)]", "[N*(2+1)]", "[(N+1)*2]", "[60/(N/2)]", "[2*(N-3)]", "[N-(3-1)]", "[40/(2*2)][N]"]
